@@ -28,13 +28,21 @@ impl Origin {
     }
 }
 
+thread_local! {
+    /// model and offset map of the last by-construction-valid packet produced by `gen_input`
+    /// (generator-soundness self-check in C02)
+    pub static LAST_VALID: std::cell::RefCell<Option<(Message, crate::enc::Encoded)>> = const { std::cell::RefCell::new(None) };
+}
+
 /// The shared input stream of C01/C02/C18: valid packets, damaged packets,
 /// raw strings, long strings.
 pub fn gen_input(src: &mut Src) -> (Vec<u8>, Origin) {
     match src.weighted(&[5, 12, 3, 1]) {
         0 => {
-            let (_m, e) = gens::gen_packet(src, &GenOpts::default());
-            (e.bytes, Origin::Valid)
+            let (m, e) = gens::gen_packet(src, &GenOpts::default());
+            let bytes = e.bytes.clone();
+            LAST_VALID.with(|l| *l.borrow_mut() = Some((m, e)));
+            (bytes, Origin::Valid)
         }
         1 => {
             let o = GenOpts { big: false, many: false, ..GenOpts::default() };
@@ -390,6 +398,24 @@ fn c02_case(data: &[u8], st: &mut Stats) -> PResult {
                 Verdict::Accept => {}
                 v => fail!("HARNESS: generator/reference disagree", "generated-valid packet judged {:?} by the reference: {}", v, hex_abbrev(&bytes)),
             }
+            // model -> encode -> decode must give back the model and the encoder's offset map
+            let d = refdec::decode_strict(&bytes).unwrap();
+            let chk: PResult = LAST_VALID.with(|l| {
+                if let Some((m, e)) = l.borrow().as_ref() {
+                    ensure!(d.msg == *m, "HARNESS: decode(encode(model)) differs from the model", "{}; packet={}", m.diff(&d.msg, false), hex_abbrev(&bytes));
+                    let qo = d.q.as_ref().map(|q| (q.start, q.name_end, q.end));
+                    let qe = e.q.as_ref().map(|q| (q.start, q.name_end, q.end));
+                    ensure!(qo == qe, "HARNESS: question offsets differ between encoder and reference", "{:?} vs {:?}", qe, qo);
+                    for s in 0..3 {
+                        let a: Vec<_> = d.recs[s].iter().map(|r| (r.start, r.name_end, r.rdata_start, r.end)).collect();
+                        let b: Vec<_> = e.recs[s].iter().map(|r| (r.start, r.name_end, r.rdata_start, r.end)).collect();
+                        ensure!(a == b, "HARNESS: record offsets differ between encoder and reference", "section {}: {:?} vs {:?}", s + 1, b, a);
+                    }
+                }
+                Ok(())
+            });
+            chk?;
+            st.class("self-check:model-encode-decode");
         }
         c02_compare(&bytes, &tag, st)?;
         if bytes.len() >= 12 {
@@ -498,6 +524,7 @@ pub fn check_c02(ctx: &Ctx, known: &KnownFindings) -> Report {
     rep.absorb(r);
     let mut req: Vec<String> = CLAUSES.iter().map(|c| format!("reject:{}", c)).collect();
     req.push("accept".into());
+    req.push("self-check:model-encode-decode".into());
     req.push("name:accept".into());
     req.push("name:reject".into());
     req.push("plain-name:accept".into());
